@@ -10,7 +10,7 @@ from .. import boot, core, api, proggen, tracer, refac, corpus
 ID = "C07"
 LEVEL = "exploration"
 BUDGET = {"quick": 150, "thorough": 1600}
-EXAMPLES = {"quick": 130, "thorough": 3500}
+EXAMPLES = {"quick": 260, "thorough": 3500}
 RULE = ("cases = (a) generated programs (vlib.proggen, single/multi-module) whose main file is put through layout "
         "mutators (CRLF / CR line ends, no final newline, tab indentation, a comment or blank line before and a trailing "
         "comment after statements, non-ASCII identifiers) and (b) a package-layout family (package, sibling package "
